@@ -302,6 +302,41 @@ impl ProtoHdr {
     }
 }
 
+/// Verification hooks: raw view of the header state.
+#[cfg(rs_matter_verif)]
+impl ProtoHdr {
+    /// `(exch_id, exch_flags, proto_id, proto_opcode, proto_vendor_id, ack_msg_ctr)`
+    pub fn verif_raw(&self) -> (u16, u8, u16, u8, u16, u32) {
+        (
+            self.exch_id,
+            self.exch_flags.bits(),
+            self.proto_id,
+            self.proto_opcode,
+            self.proto_vendor_id,
+            self.ack_msg_ctr,
+        )
+    }
+
+    /// A header in the given raw state; `None` if the flag byte has undeclared bits.
+    pub fn verif_from_raw(
+        exch_id: u16,
+        exch_flags: u8,
+        proto_id: u16,
+        proto_opcode: u8,
+        proto_vendor_id: u16,
+        ack_msg_ctr: u32,
+    ) -> Option<Self> {
+        Some(Self {
+            exch_id,
+            exch_flags: ExchFlags::from_bits(exch_flags)?,
+            proto_id,
+            proto_opcode,
+            proto_vendor_id,
+            ack_msg_ctr,
+        })
+    }
+}
+
 impl Default for ProtoHdr {
     fn default() -> Self {
         Self::new()
